@@ -54,6 +54,9 @@ impl Monitor for C05 {
         }
         if !below {
             out.count(&format!("c05.{}.at_or_above_threshold", path));
+            if pre.rb == pre.params.er_threshold.atomics().u128() && pre.rb < E18 {
+                out.count("c05.ops_exactly_at_threshold_below_one");
+            }
             if credited != nofee {
                 out.violation(P, "no_fee_above_threshold", format!("{}: bSei rate {} >= threshold {} but credited {} instead of {}", path, pre.rb, pre.params.er_threshold, credited, nofee));
             }
